@@ -1107,4 +1107,173 @@ theorem WF_normalise (fs : List FileAtt) (m : NoteMeta) (c : CommitFacts) (h : W
     · rw [rangesOfPath_normalise fs f.path hsorted]
       exact this.2
 
+/-! ### the pre-fix writer/lookup on trees whose entries are all at fan-out depth ≤ 1 -/
+
+theorem count_slash_of_noslash (x : Str) (h : '/' ∉ x) : x.count '/' = 0 :=
+  List.count_eq_zero.2 h
+
+theorem fanPath_noslash_eq (d : Nat) (x : Str) (hx : '/' ∉ x) (h : (fanPath d x).count '/' = 0) :
+    fanPath d x = x := by
+  match d, x with
+  | 0, x => simp [fanPath]
+  | d + 1, [] => simp [fanPath]
+  | d + 1, [a] => simp [fanPath]
+  | d + 1, a :: b :: tl =>
+    simp only [fanPath] at h ⊢
+    split
+    · rfl
+    · rename_i hne
+      rw [if_neg hne] at h
+      exfalso
+      have : '/' ∈ a :: b :: '/' :: fanPath d tl := by simp
+      exact (List.count_eq_zero.1 h) this
+
+theorem depth_fanPath_one (o : Str) (ho : '/' ∉ o) : depthOf (fanPath 1 o) ≤ 1 := by
+  unfold depthOf
+  match o, ho with
+  | [], _ => simp [fanPath]
+  | [a], ho => simp only [fanPath]; rw [count_slash_of_noslash _ ho]; omega
+  | a :: b :: tl, ho =>
+    simp only [fanPath]
+    split
+    · rw [count_slash_of_noslash _ ho]; omega
+    · have ha : a ≠ '/' := fun e => ho (by simp [e])
+      have hb : b ≠ '/' := fun e => ho (by simp [e])
+      have htl : '/' ∉ tl := fun e => ho (by simp [e])
+      rw [List.count_cons, List.count_cons, List.count_cons, count_slash_of_noslash _ htl]
+      simp [ha, hb]
+
+theorem fanPath_depth_le_one (d : Nat) (o : Str) (ho : '/' ∉ o) (h : depthOf (fanPath d o) ≤ 1) :
+    fanPath d o = o ∨ fanPath d o = fanPath 1 o := by
+  unfold depthOf at h
+  match d, o, ho with
+  | 0, o, _ => left; simp [fanPath]
+  | d + 1, [], _ => left; simp [fanPath]
+  | d + 1, [a], _ => left; simp [fanPath]
+  | d + 1, a :: b :: tl, ho =>
+    simp only [fanPath] at h ⊢
+    split
+    · left; rfl
+    · rename_i hne
+      rw [if_neg hne] at h
+      right
+      have ha : a ≠ '/' := fun e => ho (by simp [e])
+      have hb : b ≠ '/' := fun e => ho (by simp [e])
+      have htl : '/' ∉ tl := fun e => ho (by simp [e])
+      rw [List.count_cons, List.count_cons, List.count_cons] at h
+      have e1 : (a == '/') = false := by simpa using ha
+      have e2 : (b == '/') = false := by simpa using hb
+      have h0 : (fanPath d tl).count '/' = 0 := by
+        simp [e1, e2] at h
+        omega
+      rw [fanPath_noslash_eq d tl htl h0]
+      simp [fanPath, hne]
+
+/-- the pre-fix writer does what the fixed one does when no entry is deeper than one level -/
+theorem noteTreeUpdateV0_effect {n : Nat} (hn : 1 ≤ n) (t : Tree) (o : Str) (b : Blob)
+    (ht : ∀ e ∈ t, ∃ d o, e.1 = fanPath d o ∧ IsOid n o) (hd : ∀ e ∈ t, depthOf e.1 ≤ 1)
+    (ho : IsOid n o) :
+    ∃ cmds, noteTreeUpdateV0 o b = .ok cmds ∧ cmds.foldl applyCmd t = setNote 1 t o b := by
+  unfold noteTreeUpdateV0
+  rw [notesPathForObject_hex o ho.2]
+  refine ⟨_, rfl, ?_⟩
+  let ps0 : List Path := (if o != fanPath 1 o then [o] else []) ++ [fanPath 1 o]
+  have hcmds : (if o != fanPath 1 o then [Cmd.D o] else []) ++ [Cmd.D (fanPath 1 o), Cmd.M b (fanPath 1 o)]
+      = ps0.map Cmd.D ++ [Cmd.M b (fanPath 1 o)] := by
+    simp only [ps0]
+    split <;> simp
+  rw [hcmds, List.foldl_append]
+  have hps : ∀ p ∈ ps0, ∃ d o', p = fanPath d o' ∧ IsOid n o' := by
+    intro p hp
+    simp only [ps0, List.mem_append, List.mem_singleton] at hp
+    rcases hp with hp | hp
+    · split at hp
+      · simp only [List.mem_singleton] at hp; exact ⟨0, o, by simp [hp, fanPath], ho⟩
+      · cases hp
+    · exact ⟨1, o, hp, ho⟩
+  rw [foldl_delete hn ps0 t hps ht]
+  have hfilt : t.filter (fun e => !ps0.contains e.1) = t.filter (fun e => objOf e.1 != o) := by
+    apply List.filter_congr
+    intro e he
+    by_cases hobj : objOf e.1 = o
+    · obtain ⟨_, d, hde⟩ := objOf_shape (ht e he)
+      rw [hobj] at hde
+      have hdep := hd e he
+      rw [hde] at hdep
+      have hmem : e.1 ∈ ps0 := by
+        rcases fanPath_depth_le_one d o ho.noslash hdep with h | h
+        · rw [hde, h]
+          simp only [ps0, List.mem_append, List.mem_singleton]
+          by_cases hq : o = fanPath 1 o
+          · right; exact hq
+          · left; have : (o != fanPath 1 o) = true := by simpa using hq
+            simp [this]
+        · rw [hde, h]; simp [ps0]
+      simp [hmem, hobj]
+    · have hnm : e.1 ∉ ps0 := by
+        intro hm
+        obtain ⟨d, o', hp, _⟩ := hps e.1 hm
+        simp only [ps0, List.mem_append, List.mem_singleton] at hm
+        apply hobj
+        rcases hm with hm | hm
+        · split at hm
+          · simp only [List.mem_singleton] at hm; rw [hm]; exact objOf_of_noslash o ho.noslash
+          · cases hm
+        · rw [hm]; exact objOf_fanPath 1 o ho.noslash
+      simp [hnm, hobj]
+  rw [hfilt]
+  simp only [List.foldl_cons, List.foldl_nil, applyCmd, fiModify, setNote]
+  congr 1
+  have ht' : ∀ e ∈ t.filter (fun e => objOf e.1 != o), ∃ d o, e.1 = fanPath d o ∧ IsOid n o :=
+    fun e he => ht e (List.mem_filter.1 he).1
+  rw [fiDelete_shape hn _ _ ⟨1, o, rfl, ho⟩ ht', List.filter_filter]
+  apply List.filter_congr
+  intro e _
+  by_cases h : objOf e.1 = o
+  · simp [h]
+  · have : e.1 ≠ fanPath 1 o := by
+      intro x; apply h; rw [x]; exact objOf_fanPath 1 o ho.noslash
+    simp [h, this]
+
+theorem setNote_depth (t : Tree) (o : Str) (b : Blob) (ho : '/' ∉ o) (hd : ∀ e ∈ t, depthOf e.1 ≤ 1) :
+    ∀ e ∈ setNote 1 t o b, depthOf e.1 ≤ 1 := by
+  intro e he
+  simp only [setNote, List.mem_append, List.mem_filter, List.mem_singleton] at he
+  rcases he with ⟨he, _⟩ | rfl
+  · exact hd e he
+  · exact depth_fanPath_one o ho
+
+/-- batch lookup over any list of candidate paths that (a) are fan-out splits of `o` and
+    (b) include the path where `o`'s note actually sits -/
+theorem findSome_paths {n : Nat} (t : Tree) (o : Str) (ps : List Path) (ht : WFTree n t)
+    (ho : IsOid n o) (h1 : ∀ p ∈ ps, p ∈ variants o)
+    (h2 : ∀ k b, (k, b) ∈ t → objOf k = o → k ∈ ps) :
+    ps.findSome? (catFileBlob t) = gitNotesShow t o := by
+  rw [show_eq_lookup t o ht]
+  cases hl : (absMap t).lookup o with
+  | none =>
+    rw [List.findSome?_eq_none_iff]
+    intro p hp
+    cases hc : catFileBlob t p with
+    | none => rfl
+    | some b =>
+      exfalso
+      have hm := mem_of_lookup t p b hc
+      obtain ⟨d, rfl⟩ := mem_variants o p (h1 p hp)
+      exact lookup_absMap_none t o hl _ hm (objOf_fanPath d o ho.noslash)
+  | some b =>
+    obtain ⟨k, hk, hko⟩ := lookup_absMap_some t o b hl
+    apply findSome_of_all
+    · intro p hp
+      cases hc : catFileBlob t p with
+      | none => left; rfl
+      | some b' =>
+        right
+        have hm := mem_of_lookup t p b' hc
+        obtain ⟨d, rfl⟩ := mem_variants o p (h1 p hp)
+        have := same_obj_same_entry t (k, b) (fanPath d o, b') ht.one hk hm
+          (by simp [hko, objOf_fanPath d o ho.noslash])
+        cases this; rfl
+    · exact ⟨k, h2 k b hk hko, lookup_of_mem t k b ht.one hk⟩
+
 end GitAi.NotesTree
